@@ -108,10 +108,11 @@ func drawTotal(maxBytes int) int {
 }
 
 func runTunnels(prop string) {
+	// "collision-free" = a chain with one ingress. Since per-connection stream ids
+	// start at a random point (fix 03b8eea) no topology makes honest agents share
+	// an id any more; the other topologies (several ingresses toward one transit
+	// or exit, rings, diamonds) are drawn for every property of the family.
 	collisionFree := !simrt.Chance(1, 4, "collision-prone")
-	if prop == "C07" || prop == "C04" || prop == "C03" {
-		collisionFree = true
-	}
 	m := tunnelMesh(collisionFree, 5)
 	if prop == "C03" {
 		// every exit also answers UDP_OPEN and ICMP_OPEN (crafted opens with degenerate keys)
@@ -529,7 +530,7 @@ func degenerateKeyChecks(m *Mesh) {
 		simrt.Failf("harness", "raw peer attach failed", "%v", err)
 	}
 	adv := &protocol.RouteAdvertise{OriginAgent: rp.ID, Sequence: 1,
-		Routes:  []protocol.Route{{AddressFamily: protocol.AddrFamilyIPv4, PrefixLength: 16, Prefix: []byte{10, 77, 0, 0}, Metric: 0}},
+		Routes:  []protocol.Route{{AddressFamily: protocol.AddrFamilyIPv4, PrefixLength: 16, Prefix: []byte{10, 77, 0, 0}, Metric: 0}, {AddressFamily: protocol.AddrFamilyIPv4, PrefixLength: 0, Prefix: []byte{0, 0, 0, 0}, Metric: 0}},
 		EncPath: &protocol.EncryptedData{Data: protocol.EncodePath([]identity.AgentID{rp.ID})}, SeenBy: []identity.AgentID{rp.ID}}
 	rp.Send(&protocol.Frame{Type: protocol.FrameRouteAdvertise, StreamID: protocol.ControlStreamID, Payload: adv.Encode()})
 	simrt.Sleep(3 * time.Second)
